@@ -26,7 +26,9 @@ RULE = ("Hypothesis draws files biased to boundary arithmetic (2-6 segments, 1-4
         'full read of a separate fresh file) are included.'
         ' A further job reads files of 2-12 GiB that exist only as a formula (vf.observe.VirtualStream): windows, '
         "slices and indices around byte positions 2^31, 2^32 and 2^33 must return the formula's bytes and fetch no "
-        'more than the chunks they overlap.')
+        'more than the chunks they overlap.'
+        ' Raw-data-only continuation segments repeating the last layout and chunk count, and a job on compressed '
+        'encodings (inherited lists / indexes), also cut, are included.')
 ASSUMPTIONS = [
     "independent encoder vf/encode.py",
     "negative offset/length are outside the statement (domain offset >= 0)",
